@@ -35,7 +35,12 @@ def _schedule(rng, variant, zlim, dur):
     if kind == 'iso':
         return {'kind': 'iso', 'T': T0}, (lambda m: m.setTemperature(T0)), (lambda z, t: T0 * np.ones(len(z)))
     if kind == 'array':
-        hrs = [0.0, 0.3 * dur / 3600, dur / 3600]
+        # break points that do / do not cover the run: before the first and after the last break point the documented
+        # behaviour is to HOLD the first / last temperature (seeded change F07 extrapolated the end segments)
+        cover = ((variant + 1) // 2) % 4
+        f0 = 0.0 if cover in (0, 1) else 0.15
+        f2 = 1.0 if cover in (0, 2) else 0.6
+        hrs = [f0 * dur / 3600, (f0 + 0.3 * (f2 - f0)) * dur / 3600, f2 * dur / 3600]
         Ts = [T0, T0 + float(rng.uniform(-80, 80)), T0 + float(rng.uniform(-80, 80))]
 
         def ref(z, t):
